@@ -21,10 +21,10 @@ RULE = (
     "non-trivial = at least one non-zero width and the expected padded array differs from zero-padding of the same shape"
 )
 SPACE = {
-    "quick": "8 periodic x 8 boundary x 6 fill_value constructor spellings x 10 x 8 call spellings (incl. mappings naming the same axes with other values, on the same Grid) x 8 width sets x 4 layouts (n=2), + axis settings + Grid.diff with the same kwargs",
-    "thorough": "same x 30 width sets x 6 layouts, n in {2,3}",
+    "quick": "8 periodic x 8 boundary x 6 fill_value constructor spellings x 10 x 8 call spellings (incl. mappings naming the same axes with other values, on the same Grid) x 8 width sets x 5 layouts incl. arrays on outer / right positions (n=2), + axis settings + Grid.diff with the same kwargs",
+    "thorough": "same x 30 width sets x 9 layouts (all five positions), n in {2,3}",
 }
-BOUNDS = {"quick": {"n": [2], "width_sets": 8, "layouts": 4}, "thorough": {"n": [2, 3], "width_sets": 30, "layouts": 6}}
+BOUNDS = {"quick": {"n": [2], "width_sets": 8, "layouts": 5}, "thorough": {"n": [2, 3], "width_sets": 30, "layouts": 9}}
 ASSUMPTIONS = [
     "injective integer labels stand for all data values (padding copies cells without reading them); checked with a second labelling",
     "cells that are new along two axes are accepted if they match either order of sequential padding (C12 owns them)",
@@ -37,7 +37,21 @@ BND = [None, "fill", "extend", "periodic", {"X": "extend", "Y": "fill"}, {"X": "
 FV = [None, 0, 3.5, {"X": 2.0, "Y": -1.0}, {"Y": 4.0}, {}]
 # per-call spellings: the constructor lists plus mappings that name the same axes with other values
 CALL_BND = BND + [{"X": "fill", "Y": "extend"}, {"X": "extend"}]
-CALL_FV = FV + [{"X": -3.0, "Y": 0.0}, {"Y": 0.0}]
+# numbers may also arrive as NumPy scalars or 0-d arrays: written here as tokens (they survive the JSON replay file)
+# and decoded by num()
+CALL_FV = FV + [{"X": -3.0, "Y": 0.0}, {"Y": 0.0}, "np.float32:2.5", {"X": "np.int64:-3", "Y": "np.0d:1.5"}]
+
+
+def num(v):
+    """token -> number object; anything else unchanged"""
+    if isinstance(v, str) and v.startswith("np."):
+        kind, val = v[3:].split(":")
+        return np.array(float(val)) if kind == "0d" else getattr(np, kind)(float(val))
+    return v
+
+
+def decode(spec):
+    return {k: num(v) for k, v in spec.items()} if isinstance(spec, dict) else num(spec)
 
 
 def widths_for(tier, n):
@@ -61,8 +75,9 @@ def widths_for(tier, n):
 
 
 LAYOUTS = [
-    ("xc", "yc"), ("yc", "xc"), ("t", "xc", "yc"), ("xg", "yc"), ("yc", "t", "xg"), ("xc", "yg", "t"),
+    ("xc", "yc"), ("yc", "xc"), ("t", "xc", "yc"), ("xo", "yc"), ("yo", "t", "xr"), ("xg", "yc"), ("yc", "t", "xg"), ("xc", "yg", "t"), ("xi", "yo"),
 ]
+DIMLEN = lambda d, n: 2 if d == "t" else n + 1 if d[1] == "o" else n - 1 if d[1] == "i" else n
 
 
 def make_grid(n, per, gb, gf):
@@ -72,10 +87,12 @@ def make_grid(n, per, gb, gf):
         coords={
             "xc": ("xc", np.arange(n) + 0.5), "xg": ("xg", np.arange(n) * 1.0),
             "yc": ("yc", np.arange(n) + 0.5), "yg": ("yg", np.arange(n) * 1.0),
+            "xo": ("xo", np.arange(n + 1) * 1.0), "xr": ("xr", np.arange(n) + 1.0), "xi": ("xi", np.arange(n - 1) + 1.0),
+            "yo": ("yo", np.arange(n + 1) * 1.0),
             "t": ("t", np.arange(2)),
         }
     )
-    coords = {"X": {"center": "xc", "left": "xg"}, "Y": {"center": "yc", "left": "yg"}}
+    coords = {"X": {"center": "xc", "left": "xg", "outer": "xo", "right": "xr", "inner": "xi"}, "Y": {"center": "yc", "left": "yg", "outer": "yo"}}
     with warnings.catch_warnings():
         warnings.simplefilter("ignore")
         return Grid(ds, coords=coords, periodic=per, boundary=gb, fill_value=gf, autoparse_metadata=False)
@@ -107,9 +124,9 @@ def resolve(per, gb, gf, cb, cf, ax, defect=False):
     if rule is None:
         p = is_periodic(per, ax) or (defect and isinstance(per, list))
         rule = "periodic" if p else "fill"
-    f = pick(cf, ax)
+    f = num(pick(cf, ax))
     if f is None:
-        f = pick(gf, ax)
+        f = num(pick(gf, ax))
     if f is None:
         f = 0.0
     return rule, float(f)
@@ -144,9 +161,9 @@ def check_pad(rec, n, per, gb, gf, cb, cf, w, layout, seed, g=None, second=True)
             rec.violation("constructor", "raise:" + exc_sig(e), case, "a Grid", f"{type(e).__name__}: {e}"[:200])
             return
     wx, wy = tuple(w[0]), tuple(w[1])
-    shape = tuple(2 if d == "t" else n for d in layout)
-    ix = [i for i, d in enumerate(layout) if d in ("xc", "xg")][0]
-    iy = [i for i, d in enumerate(layout) if d in ("yc", "yg")][0]
+    shape = tuple(DIMLEN(d, n) for d in layout)
+    ix = [i for i, d in enumerate(layout) if d[0] == "x"][0]
+    iy = [i for i, d in enumerate(layout) if d[0] == "y"][0]
     rx = resolve(per, gb, gf, cb, cf, "X")
     ry = resolve(per, gb, gf, cb, cf, "Y")
     nz = any(wx) or any(wy)
@@ -166,7 +183,7 @@ def check_pad(rec, n, per, gb, gf, cb, cf, w, layout, seed, g=None, second=True)
             bw = {"X": wx, "Y": wy} if (wx[0] + wy[1]) % 2 == 0 else {"X": list(wx), "Y": list(wy)}
             if (wx[1] + wy[0] + len(layout)) % 2:
                 bw = {"Y": bw["Y"], "X": bw["X"]}
-            r = pad(da, g, bw, boundary=_copy(cb), fill_value=_copy(cf))
+            r = pad(da, g, bw, boundary=_copy(cb), fill_value=decode(_copy(cf)))
         except Exception as e:
             rec.case((n, per, gb, gf, cb, cf, w, layout), nz)
             rec.violation("pad", "raise:" + exc_sig(e), case, "padded array", f"{type(e).__name__}: {e}"[:200])
@@ -251,7 +268,7 @@ def check_diff(rec, n, per, gb, gf, cb, cf, seed, g=None):
     for ax, axi, op in (("X", 0, "diff"), ("Y", 1, "interp")):
         rule, f = resolve(per, gb, gf, cb, cf, ax)
         try:
-            r = getattr(g, op)(da, ax, to="left", boundary=_copy(cb), fill_value=_copy(cf))
+            r = getattr(g, op)(da, ax, to="left", boundary=_copy(cb), fill_value=decode(_copy(cf)))
         except Exception as e:
             rec.violation("grid-op", "raise:" + exc_sig(e), case, "array", f"{type(e).__name__}: {e}"[:200])
             return
